@@ -181,5 +181,9 @@ fn apply_plus(count: Count, diff: Diff, times: Count) -> Option<Count> {
 
     let mult = absdiff.checked_mul(times)?;
 
-    Some(if diff < 0 { count - mult } else { count + mult })
+    if diff < 0 {
+        Some(count - mult)
+    } else {
+        count.checked_add(mult)
+    }
 }
